@@ -530,6 +530,28 @@ fn main() {
                     Ok(Ok((rest, eo, v))) => { write!(o, "(k c0 i{} q{} q{})", v, rest, eo).unwrap(); }
                 }
             }
+            "N" => {
+                // the library routines behind the numeric sentence fields (transcribed in Model/NomBytes.v):
+                // d = map_res(map_res(digit1, from_utf8), u8::from_str) as in sentence.rs, x = nom hex_u32,
+                // s = str::parse::<u8>
+                let bytes = unhex(f[2]);
+                match f[1] {
+                    "d" => {
+                        use nom::character::complete::digit1;
+                        use nom::combinator::map_res;
+                        let r: nom::IResult<&[u8], u8> = map_res(map_res(digit1, std::str::from_utf8), std::str::FromStr::from_str)(&bytes[..]);
+                        match r { Ok((rest, v)) => write!(o, "(k c0 i{} q{})", v, rest.len()).unwrap(), Err(_) => o.push_str("(k c2)") }
+                    }
+                    "x" => {
+                        let r: nom::IResult<&[u8], u32> = nom::number::complete::hex_u32(&bytes[..]);
+                        match r { Ok((rest, v)) => write!(o, "(k c0 i{} q{})", v, rest.len()).unwrap(), Err(_) => o.push_str("(k c2)") }
+                    }
+                    _ => {
+                        match std::str::from_utf8(&bytes).ok().and_then(|t| t.parse::<u8>().ok()) {
+                            Some(v) => write!(o, "(k c0 i{})", v).unwrap(), None => o.push_str("(k c2)") }
+                    }
+                }
+            }
             "" => continue,
             _ => panic!("bad case line"),
         }
